@@ -239,7 +239,7 @@ def r5(ctx, prog):
     dis = [st for st in sc.calls() if st.get('fn') == 'disconnect']
     for d in dis:
         g = sc.cfg.controlling_branches(q.pt(sc, d))
-        ok = any({'res_index', 'close_index'} <= {x.split('::')[-1] for x in q.subtree_fields(sc, cond)} and sc.s(sc.strip_casts(cond)).get('op') == '>' and k == 0 for cond, k, b in g)
+        ok = any(q.edge_holds(sc, cond, k, 'conn.res_index', '>', 'conn.close_index') for cond, k, b in g)
         ctx.ob('C12.R5', '%s|close-after-last' % sc.name, ok, 'disconnect only under res_index > close_index', where=sc.loc(d['i']))
     if not dis:
         ctx.ob('C12.R5', '%s|close-after-last' % sc.name, False, 'onTcpSendCompleted never disconnects: the connection stays open after the close response', where=sc.loc(sc.body))
@@ -318,7 +318,8 @@ def r8(ctx, prog):
                 ctx.ob('C12.R8', '%s|shutdown(SHUT_WR)' % f.name, True, 'write-side shutdown does not produce a local end-of-stream', where=f.loc(c['i']))
                 continue
             g = f.cfg.controlling_branches(q.pt(f, c))
-            done = any({'res_index', 'close_index'} <= {x.split('::')[-1] for x in q.subtree_fields(f, cond)} and f.s(f.strip_casts(cond)).get('op') == '>' and k == 0 for cond, k, b in g)
+            done = any((lambda r_: r_ is not None and ((r_[0].endswith('res_index') and r_[1] == '>' and r_[2].endswith('close_index')) or
+                                                        (r_[0].endswith('close_index') and r_[1] == '<' and r_[2].endswith('res_index'))))(q.edge_relation(f, cond, k)) for cond, k, b in g)
             ctx.ob('C12.R8', '%s|shutdown(%s)' % (f.name, {0: 'SHUT_RD', 2: 'SHUT_RDWR'}.get(how, '?')), done,
                    'read-side shutdown only after the last response was sent' if done else
                    'the server shuts down the read side of a connection that still owes responses: the next loop pass reads 0, TcpConnection::onSocketClosed '
